@@ -225,7 +225,21 @@ def _mutants():
     def src(obj, fname, old, new):
         return lambda: _patch_source(obj, fname, old, new)
 
+    def both(*installs):
+        def install():
+            undos = [i() for i in installs]
+            return lambda: [u() for u in reversed(undos)]
+        return install
+
     return {
+        # the reset of default_fetch_as only when the configuration is accepted (seeded change r2m1)
+        'reset_defaults_when_accepted': both(
+            src(lg.Log, 'add_config', "        logconf.default_fetch_as = []\n", "        pass\n"),
+            src(lg.Log, 'add_config', "            logconf.cf = self.cf\n",
+                "            logconf.default_fetch_as = []\n            logconf.cf = self.cf\n")),
+        # the data layout of a block frozen at its first data packet (like seeded change r2m2)
+        'layout_cached_at_first_packet': src(lg.LogConfig, 'unpack_log_data', "for var in self.variables:",
+                                             "for var in self.__dict__.setdefault('_c05_layout', list(self.variables)):"),
         'max_len_25': attr(lg.LogConfig, 'MAX_LEN', 25),
         'max_len_27': attr(lg.LogConfig, 'MAX_LEN', 27),
         'period_le_255': src(lg.Log, 'add_config', 'logconf.period < 0xFF', 'logconf.period <= 0xFF'),
@@ -289,8 +303,9 @@ class Exec:
         self.errors = []
         self.last_flags = None
         w = sd.set_world(sd.World())
-        entries = [{'group': n.split('.')[0].encode(), 'name': n.split('.')[1].encode(), 'type': t}
-                   for (n, t) in sc['toc']]
+        entries = self._entries(sc['toc'])
+        self.tocs = []                       # the device table of every session (a later session may find 'toc2')
+        self.cfgs0 = copy.deepcopy(sc['cfgs'])
         params = [{'group': b'p', 'name': b'a', 'type': 0x08, 'value': b'\x06', 'default': b'\x06', 'ext': 0}]
         self.dev = dev = sv.standard_device(log_entries=entries, param_entries=params, mems=[], mode='sync',
                                             needs_resending=False, log_crc=0x5C050000 + len(entries))
@@ -334,6 +349,13 @@ class Exec:
                                 'ldef': list(lc.default_fetch_as), 'id': lc.id, 'before': before,
                                 'after': self.flags(), 'ncbs': self._take_ncbs(), 'st': self.project()})
         cf.log.add_config = add_config
+
+    @staticmethod
+    def _entries(toc):
+        return [{'group': n.split('.')[0].encode(), 'name': n.split('.')[1].encode(), 'type': t} for (n, t) in toc]
+
+    def table_of(self, sess):
+        return self.sc['toc2'] if sess >= 2 and self.sc.get('toc2') else self.sc['toc']
 
     # -- observation hooks (no behaviour change)
     def _hook_config(self, c, lc):
@@ -475,6 +497,11 @@ class Exec:
 
     def connect(self):
         self.nsess += 1
+        toc = self.table_of(self.nsess)
+        self.tocs.append(toc)
+        if self.nsess >= 2 and self.sc.get('toc2'):
+            ent = self._entries(toc)                       # firmware update between sessions: another table (and CRC)
+            self.logsvc.table = sv.TocTable(ent, 0x5C050000 + len(ent))
         want = self.connected + 1
         self.call(lambda: self.cf.open_link('sim://0/%d' % self.nsess))
         r = self.s.run(until=lambda: self.connected >= want, horizon=self.s.now + 120.0)
@@ -498,6 +525,17 @@ class Exec:
             self.call(lambda: cf.log.add_config(lcs[st[1] - 1]))
         elif k in ('start', 'stop', 'delete'):
             self.call(getattr(lcs[st[1] - 1], k))
+        elif k == 'addvar':
+            v = st[2]
+            lc = lcs[st[1] - 1]
+            if v['k'] == 'mem':
+                lc.add_memory(v['n'], TYPE_NAMES[v['f']], TYPE_NAMES[v['s']], int.from_bytes(bytes(v['a']), 'little'))
+            elif v['f'] == 0:
+                lc.add_variable(v['n'])
+            else:
+                lc.add_variable(v['n'], TYPE_NAMES[v['f']])
+            self.refnames.pop(st[1], None)         # the next successful add_config fixes the list anew
+            self.ev.append({'e': 'addvar', 'c': st[1], 'v': dict(v)})
         elif k == 'deliver':
             if self.faults.held and self.dev.link is not None:
                 pk = self.faults.held.pop(0)
@@ -644,9 +682,10 @@ def execute(sc, mutant=None):
                 op = x.consumer.pending
                 idle_end = bool(x.logger._queue.empty() and op is not None and op.kind.startswith('queue.get'))
             dead = [t for t in s.report() if t['status'] == 'dead']
-            trace = {'toc': [{'n': n, 't': t, 'i': i} for i, (n, t) in enumerate(sc['toc'])
-                             if i < 4 or any(v['n'] == n for c in sc['cfgs'] for v in c['vars'])],
-                     'cfgs': sc['cfgs'], 'sync': bool(x.synccs), 'synccs': x.synccs, 'idle_end': idle_end,
+            used = {v['n'] for c in sc['cfgs'] for v in c['vars']} | {st[2]['n'] for st in sc['steps'] if st[0] == 'addvar'}
+            trace = {'tocs': [[{'n': n, 't': t, 'i': i} for i, (n, t) in enumerate(toc) if i < 4 or n in used]
+                              for toc in x.tocs + [x.table_of(x.nsess + 1)]],
+                     'cfgs': x.cfgs0, 'sync': bool(x.synccs), 'synccs': x.synccs, 'idle_end': idle_end,
                      'ev': x.ev, 'noconf': bool(sc.get('noconf')) or any(st[0] == 'race' for st in sc['steps']) or len(x.synccs) > 1,
                      'detail': {'errors': x.errors, 'dead': [t.get('traceback', '')[-400:] for t in dead]}}
             return trace
@@ -836,6 +875,10 @@ def sc_histories(tier, rng):
         two = i % 3 == 0
         n = rng.randint(4, 8)
         seq = [rng.choice(alpha2 if two else HIST_ALPHA + [('deliver',), ('deliver',), ('start', 1)]) for _ in range(n)]
+        if i % 5 == 1:
+            late = [M('mem.r%d' % i, 1 + i % 8, 1 + (i // 8) % 8, 0x20000000 + i), V('v.x%d' % (16 + i % 8), 1 + i % 8), V('v.x%d' % (24 + i % 8), 0)][i % 3]
+            at = rng.randint(1, len(seq))
+            seq = seq[:at] + [('stop', 1), ('delete', 1), ('drain',), ('reconnect',), ('addvar', 1, late), ('add', 1)] + seq[at:]
         seq = _drop_repeated_adds([('add', 1)] + seq)[1:]
         c1 = HIST_CFGS[i % 4]
         out.append({'toc': std_toc(), 'cfgs': [c1, cfg([V('v.x9', 0), V('v.x4', 5)]) if two else EMPTY],
@@ -925,6 +968,58 @@ def sc_sync(tier, rng):
 
 
 # --------------------------------------------------------------------------- running and judging
+def sc_evolve(tier, rng):
+    """configurations and device tables that change over time:
+       - add_config rejected (a typed or default-typed variable is missing from the first session's table, at every
+         position among typed/default-typed/raw-memory neighbours), reconnect to a device whose table has it,
+         add_config of the same LogConfig accepted, full life, and once more after another reconnect;
+       - a block that has logged data is stopped and deleted (same session or across a reconnect), gets another
+         variable by add_variable(typed) / add_variable(default) / add_memory, is added and started again, logs data"""
+    out = []
+    toc1, toc2 = std_toc(32), std_toc(40)
+    new = ['v.x35', 'v.x36', 'v.x39']
+    k = 0
+    for ndef in (1, 2, 3):
+        for nty in (0, 1):
+            for miss_f in (0, 7):                       # the missing one default-typed / explicitly typed
+                for pos in range(ndef + nty + 1):
+                    k += 1
+                    if tier == 'quick' and k % 2 and ndef > 1:
+                        continue
+                    vs = [V('v.x%d' % (1 + 3 * i), 0) for i in range(ndef)] + [V('v.x%d' % (20 + i), 5) for i in range(nty)]
+                    if k % 3 == 0:
+                        vs.append(M('mem.e', 2, 5, 0x20000100 + k))
+                    vs.insert(pos, V(new[k % 3], miss_f))
+                    out.append({'toc': toc1, 'toc2': toc2, 'cfgs': [cfg(vs, 100 + 10 * k), EMPTY],
+                                'steps': [('add', 1), ('start', 1), ('reconnect',)] + life(1, k, True), 'kind': 'evolve-table'})
+    # rejected for the table, second configuration untouched and alive across the same sessions
+    out.append({'toc': toc1, 'toc2': toc2, 'cfgs': [cfg([V('v.x2', 0), V('v.x33', 3)]), cfg([V('v.x1', 0), V('v.x4', 5)], 200)],
+                'steps': [('add', 1), ('add', 2), ('start', 2), ('drain',), ('data', 'c2', [1, 1, 1], ('ext', 2)), ('reconnect',),
+                          ('add', 2), ('add', 1), ('delete', 2), ('drain',), ('start', 2), ('start', 1), ('drain',),
+                          ('data', 'c1', [2, 2, 2], ('ext', 3)), ('data', 'c2', [3, 3, 3], ('rnd', 4))], 'kind': 'evolve-table'})
+    bases = [[V('v.x0', 1)], [V('v.x1', 0), V('v.x2', 6), V('v.x7', 0)], [M('mem.first', 5, 2, 0x20000040), V('v.x3', 4)]]
+    extras = [M('mem.late', 1, 1, 0x20000200), M('mem.late', 7, 3, 0xE0001000), V('v.x9', 8), V('v.x10', 0), V('v.x12', 0)]
+    for bi, base in enumerate(bases):
+        for xi, x in enumerate(extras):
+            for across in (False, True):
+                if tier == 'quick' and (bi + xi + across) % 2 and xi >= 2:
+                    continue
+                b = 'c1'
+                steps = [('add', 1), ('start', 1), ('drain',), ('data', b, [1, 0, 0], ('ext', xi)), ('data', b, [2, 0, 0], ('rnd', xi)),
+                         ('stop', 1), ('drain',), ('delete', 1), ('drain',)]
+                steps += [('reconnect',)] if across else []
+                steps += [('addvar', 1, x), ('add', 1), ('start', 1), ('drain',), ('data', b, [3, 0, 0], ('ext', xi + 1)),
+                          ('data', b, [4, 0, 0], ('rnd', xi + 7)), ('stop', 1), ('delete', 1), ('drain',)]
+                # ... and a second late variable placed after it
+                steps += [('addvar', 1, V('v.x15', 8)), ('add', 1), ('start', 1), ('drain',), ('data', b, [5, 0, 0], ('ext', xi + 2))]
+                out.append({'toc': std_toc(), 'cfgs': [cfg(base), EMPTY], 'steps': steps, 'kind': 'evolve-config'})
+    # a variable added late to a configuration that was never added / was rejected before
+    out.append({'toc': std_toc(), 'cfgs': [cfg([V('v.nope', 1)]), cfg([])],
+                'steps': [('add', 1), ('addvar', 2, M('mem.only', 3, 3)), ('add', 2), ('start', 2), ('drain',),
+                          ('data', 'c2', [7, 7, 7], ('ext', 5))], 'kind': 'evolve-config'})
+    return out
+
+
 def _whatif_fix():
     """Developer aid (VERIF_C05_WHATIF=fix, never set by the registered commands): apply the two minimal patches
     proposed in reports/C05.md in memory, to see that the check is green with them."""
@@ -978,7 +1073,8 @@ _VARIANT = {}
 
 
 def probe_variant():
-    """Which of the two pre-fix behaviours does the code under test have?  Used only to pick the design-spec
+    """Which of the pre-fix behaviours (duplicating re-add, TypeError on raw memory, partial resolution of default-typed
+    names before a KeyError) does the code under test have?  Used only to pick the design-spec
     variant for the binding (conformance); the monitor does not depend on it."""
     if _VARIANT:
         return _VARIANT
@@ -989,11 +1085,14 @@ def probe_variant():
     starts = [e for e in t['ev'] if e['e'] == 'start']
     _VARIANT['C05_DUP'] = '1' if len(adds[-1]['vars']) > 1 else '0'
     _VARIANT['C05_MEM'] = '1' if starts and starts[-1]['res'] == 'TypeError' else '0'
+    sc = {'toc': std_toc(), 'cfgs': [cfg([V('v.x1', 0), V('v.nope', 0)]), EMPTY], 'steps': [('add', 1)]}
+    t = run_scenarios([sc, sc, sc, sc])[0]
+    _VARIANT['C05_PARTIAL'] = '1' if len(t['ev'][0]['vars']) > 0 else '0'
     return _VARIANT
 
 
 def slim(t):
-    return {k: t[k] for k in ('id', 'toc', 'cfgs', 'sync', 'synccs', 'idle_end', 'ev')}
+    return {k: t[k] for k in ('id', 'tocs', 'cfgs', 'sync', 'synccs', 'idle_end', 'ev')}
 
 
 def judge(out, traces, label, count=True):
@@ -1071,8 +1170,11 @@ def behaviour_steps(beh):
     last = beh[-1][1]
     if last['phase'] != 'run':
         return None
-    cfgs = [{'period': c['period'], 'vars': [{'k': v['k'], 'n': v['n'], 'f': v['f'], 's': v['s'], 'a': list(v['a'])}
-                                             for v in c['vars']]} for c in last['conf']]
+    at_go = next(st for (_l, st) in beh if st['phase'] == 'run')
+
+    def var(v):
+        return {'k': v['k'], 'n': v['n'], 'f': v['f'], 's': v['s'], 'a': list(v['a'])}
+    cfgs = [{'period': c['period'], 'vars': [var(v) for v in c['vars']]} for c in at_go['conf']]
     steps = []
     for label, st in beh[1:]:
         name, args = tlc.parse_label(label)
@@ -1081,6 +1183,8 @@ def behaviour_steps(beh):
         o = st['obs']
         if name == 'UAdd':
             step = ('add', args[0])
+        elif name == 'UAddVar':
+            step = ('addvar', args[0], var(st['conf'][args[0] - 1]['vars'][-1]))
         elif name in ('UStart', 'UStop', 'UDelete'):
             step = (name[1:].lower(), args[0])
         elif name == 'Deliver':
@@ -1091,7 +1195,7 @@ def behaviour_steps(beh):
             step = ('inject', args[0])
         elif name == 'CloseLink':
             step = ('close',)
-        elif name == 'OpenLink':
+        elif name.startswith('OpenLink'):
             step = ('open',)
         elif o.get('e') == 'data':
             step = ('data', o['wire'][0], [1, 2, 3], ('seq',))
@@ -1140,7 +1244,8 @@ def replay_behaviour(beh):
                     first = 'step %d %s: %s' % (i + 1, step, [(k, exp.get(k), got.get(k)) for k in diff[:3]])
             else:
                 matched += 1
-        trace = {'toc': [{'n': n, 't': t, 'i': i} for i, (n, t) in enumerate(SIM_TOC)], 'cfgs': cfgs, 'sync': False,
+        simtoc = [{'n': n, 't': t, 'i': i} for i, (n, t) in enumerate(SIM_TOC)]
+        trace = {'tocs': [simtoc] * (x.nsess + 1), 'cfgs': cfgs, 'sync': False,
                  'synccs': [], 'idle_end': False, 'ev': x.ev, 'noconf': False,
                  'detail': {'errors': x.errors, 'dead': []}}
     return (matched, len(steps), first, trace, sc)
@@ -1179,6 +1284,8 @@ def sc_sensitivity(rng):
                                                              ('drain',), ('data', 'c1', [1, 1, 1], ('ext', 1)), ('stop', 1), ('drain',),
                                                              ('start', 1), ('drain',), ('delete', 1), ('delete', 2), ('drain',)]})
     out.append({'toc': std_toc(), 'cfgs': [c1, c2], 'steps': [('add', 1), ('start', 1), ('drain',), ('start', 1), ('stop', 1), ('drain',)]})
+    ev = sc_evolve('quick', rng)
+    out += [s for s in ev if s['kind'] == 'evolve-table'][:6] + [s for s in ev if s['kind'] == 'evolve-config'][:6]
     out += [s for s in sc_sync('quick', rng) if s['kind'] == 'sync'][:8]
     out += [s for s in sc_sync('quick', rng) if s['kind'] == 'sync-race'][:12]
     return out
@@ -1235,14 +1342,14 @@ def _tlc_job(job):
 
 
 BUG_CFGS = ['dup_readd', 'mem_raises', 'skip_on_split', 'size_lt', 'period_le_255', 'optimistic_start', 'ack_any_block',
-            'start_on_error', 'slice_by_stored']
+            'start_on_error', 'slice_by_stored', 'partial_resolve', 'reset_when_accepted', 'stale_layout']
 
 
 def _design_checks(tier):
     """exhaustive design-spec checks + every bug configuration (must be refuted), a few TLC runs at a time"""
     from concurrent.futures import ThreadPoolExecutor
-    checks = ['MC_LogBlocks_static_%s.cfg' % tier, 'MC_LogBlocks_life_%s.cfg' % tier, 'MC_LogBlocks_sync.cfg',
-              'MC_LogBlocks_sync_live.cfg']
+    checks = ['MC_LogBlocks_static_%s.cfg' % tier, 'MC_LogBlocks_life_%s.cfg' % tier, 'MC_LogBlocks_evolve.cfg',
+              'MC_LogBlocks_sync.cfg', 'MC_LogBlocks_sync_live.cfg']
     if tier == 'thorough':
         checks.append('MC_LogBlocks_two.cfg')
     jobs = [('check', c, {'workers': 6 if tier == 'thorough' else 4, 'timeout': 3000}) for c in checks]
@@ -1333,8 +1440,17 @@ def _main(tier, seed, replay=None):
 
     # 2. spec -> code: TLC behaviours of the variant the code was probed to be, replayed into the real code
     nsim = 300 if tier == 'quick' else 3000
-    simcfg = 'SIM_LogBlocks_%s%s.cfg' % (variant['C05_DUP'], variant['C05_MEM'])
-    rs, behs = tlc.simulate('MC_LogBlocks.tla', simcfg, num=nsim, depth=50, seed=seed % 100000, timeout=1200)
+    bugs = [b for k, b in (('C05_DUP', 'dup_readd'), ('C05_MEM', 'mem_raises'), ('C05_PARTIAL', 'partial_resolve')) if variant[k] == '1']
+    simdir = tlc.scratch_dir('c05sim-')
+    try:
+        simcfg = os.path.join(simdir, 'SIM_LogBlocks_probed.cfg')
+        with open(simcfg, 'w') as f:             # SIM_LogBlocks_00.cfg with the Bugs the code was probed to have
+            f.write(open(os.path.join(tlc.SPEC_DIR, 'SIM_LogBlocks_00.cfg')).read().replace(
+                'Bugs = {}', 'Bugs = {%s}' % ', '.join('"%s"' % b for b in bugs)))
+        rs, behs = tlc.simulate('MC_LogBlocks.tla', simcfg, num=nsim, depth=50, seed=seed % 100000, timeout=1200)
+    finally:
+        shutil.rmtree(simdir, ignore_errors=True)
+    simcfg = 'SIM_LogBlocks_00.cfg with Bugs={%s}' % ','.join(bugs)
     out.add_tlc('%s (-simulate num=%d)' % (simcfg, nsim), rs)
     reps = common.pmap(_replay_job, behs, init=_init, maxtasks=200)
     mach = [x[2] for x in reps if x[2] and x[2].startswith(('machinery', 'exception'))]
@@ -1348,13 +1464,15 @@ def _main(tier, seed, replay=None):
     sim_scs = [x[4] for x in reps if x[3] is not None]
 
     # 3. code -> spec: enumerations and seeded random scenarios
-    scs = sc_static(tier, rng) + sc_histories(tier, rng) + sc_sweeps(tier, rng) + sc_sync(tier, rng)
+    scs = sc_static(tier, rng) + sc_evolve(tier, rng) + sc_histories(tier, rng) + sc_sweeps(tier, rng) + sc_sync(tier, rng)
     traces = run_scenarios(scs)
     all_scs = sim_scs + scs
     all_traces = sim_traces + traces
+    late = []            # machinery problems that must not mask the verdict on the real code: raised at the end, and
+    #                      only when the monitor rejected nothing
     herr = [t['detail'] for t in all_traces if t['detail']['errors']]
     if herr:
-        raise common.MachineryError('harness could not drive a scenario: %s' % herr[0])
+        late.append('harness could not drive a scenario: %s' % herr[0])
 
     # 4. sensitivity: in-memory mutants of the code under test + corrupted traces (judged in the background)
     sens = sc_sensitivity(random.Random(seed + 1))
@@ -1368,14 +1486,18 @@ def _main(tier, seed, replay=None):
                 # a textual mutant whose site is gone from the tree under test is skipped, not an error
                 out.sensitivity['mutant:' + m] = 'skipped: the patched text is not in the code under test'
                 continue
-            raise common.MachineryError('mutant %s: harness failure: %s' % (m, t['machinery']))
+            out.sensitivity['mutant:' + m] = 'not applicable to the code under test: %s' % str(t['machinery'])[-200:]
+            continue
         t['tag'] = 'mutant:' + m
         tagged.append(t)
     base_ids = {}
-    for name, t, base in corrupted(traces):
-        t['tag'] = 'binding:' + name
-        base_ids[len(tagged)] = base
-        tagged.append(t)
+    try:
+        for name, t, base in corrupted(traces):
+            t['tag'] = 'binding:' + name
+            base_ids[len(tagged)] = base
+            tagged.append(t)
+    except StopIteration:
+        late.append('no base trace for a corrupted-trace self-test')
     ncpu = common.NCPU
     sens_bg = _Bg(_judge_tagged, tagged, dict(variant), max(2, ncpu // 3))
 
@@ -1415,38 +1537,51 @@ def _main(tier, seed, replay=None):
                     'events': [{k: v for k, v in e.items() if k not in ('st', 'before', 'after')} for e in all_traces[i]['ev'][:6]]}
                    for i in picks if 0 <= i < len(all_traces)]
 
-    # sensitivity results
-    mbad, mdrift, runs = sens_bg.get()
-    out.tlc_runs += runs
-    per = {}
-    for t in tagged:
-        per.setdefault(t['tag'], [0, 0, set()])[0] += 1
-    for (tid, clause, at) in mbad:
-        tg = tagged[tid - 1]['tag']
-        per[tg][1] += 1
-        per[tg][2].add(clause)
-    for (tid, a) in mdrift:
-        tg = tagged[tid - 1]['tag']
-        if tg.startswith('binding:'):
+    # sensitivity and design-spec results: recorded; a failure here ends the run with exit 2 only when the monitor
+    # rejected nothing (a self-test never masks the verdict on the real code)
+    try:
+        mbad, mdrift, runs = sens_bg.get()
+        out.tlc_runs += runs
+        per = {}
+        for t in tagged:
+            per.setdefault(t['tag'], [0, 0, set()])[0] += 1
+        for (tid, clause, at) in mbad:
+            tg = tagged[tid - 1]['tag']
             per[tg][1] += 1
-            per[tg][2].add('conformance@%d' % a)
-    known = {'ReAddKeepsVariables', 'NoCreationMessages'}
-    for idx, base in base_ids.items():
-        if id(base) in badset:               # the base trace itself was rejected: the corruption proves nothing
-            per.pop(tagged[idx]['tag'], None)
-            out.sensitivity[tagged[idx]['tag']] = 'skipped (no clean base trace)'
-    for tag in sorted(per):
-        n, k, clauses = per[tag]
-        out.sensitivity[tag] = '%d of %d traces rejected (%s)' % (k, n, ','.join(sorted(clauses)))
-        if k == 0 or (tag.startswith('mutant:') and not (clauses - known)):
-            raise common.MachineryError('%s survived the monitor (%s)' % (tag, out.sensitivity[tag]))
-
-    # design-spec results
-    for kind, name, r in design.get():
-        if kind == 'check':
-            out.add_tlc(name, r)
-        else:
-            out.sensitivity['spec:' + name[len('MC_LogBlocks_bug_'):-4]] = 'refuted (%s) after %d states' % (r.violated, r.distinct)
+            per[tg][2].add(clause)
+        for (tid, a) in mdrift:
+            tg = tagged[tid - 1]['tag']
+            if tg.startswith('binding:'):
+                per[tg][1] += 1
+                per[tg][2].add('conformance@%d' % a)
+        for idx, base in base_ids.items():
+            if id(base) in badset:               # the base trace itself was rejected: the corruption proves nothing
+                per.pop(tagged[idx]['tag'], None)
+                out.sensitivity[tagged[idx]['tag']] = 'skipped (no clean base trace)'
+        # what the unmutated code under test is rejected for does not count as rejecting a mutant
+        baseline = {clause for (_t, clause, _a) in bad}
+        for tag in sorted(per):
+            n, k, clauses = per[tag]
+            out.sensitivity[tag] = '%d of %d traces rejected (%s)' % (k, n, ','.join(sorted(clauses)))
+            if k == 0 or (tag.startswith('mutant:') and not (clauses - baseline)):
+                out.sensitivity[tag] += ' -- SURVIVED'
+                late.append('%s survived the monitor (%s)' % (tag, out.sensitivity[tag]))
+    except (common.MachineryError, tlc.TLCError) as e:
+        late.append('sensitivity self-tests failed: %s' % str(e)[-1500:])
+    try:
+        for kind, name, r in design.get():
+            if kind == 'check':
+                out.add_tlc(name, r)
+            else:
+                out.sensitivity['spec:' + name[len('MC_LogBlocks_bug_'):-4]] = 'refuted (%s) after %d states' % (r.violated, r.distinct)
+    except (common.MachineryError, tlc.TLCError) as e:
+        late.append('design-spec checks failed: %s' % str(e)[-1500:])
+    if late:
+        out.extra['machinery_problems'] = late
+        if not out.violations:
+            raise common.MachineryError('; '.join(late)[:3000])
+        for m in late:
+            print('MACHINERY-NOTE (verdict reported anyway): %s' % m[:400])
     return out.finish()
 
 
